@@ -53,7 +53,19 @@ def showPyRes : Py.Res → String
   | .ret v => s!"ret {v}"
 
 /-- the TRANSLATION of the current source's digit packing functions (Gen/NibblesSrc.lean), evaluated: validates the translator against the real functions -/
+def showPyOut : Py.Out → String
+  | .raised => "raised"
+  | .wrote bs => "wrote " ++ ",".intercalate (bs.map toString)
+
 def nibSrcStep : List String → String
+  | ["w", f, a] =>
+    match a.toNat? with
+    | some v =>
+      if f == "writeInt8" then showPyOut (Gen.NibSrc.enc_writeInt8 v) else if f == "writeInt16" then showPyOut (Gen.NibSrc.enc_writeInt16 v)
+      else if f == "writeInt20" then showPyOut (Gen.NibSrc.enc_writeInt20 v) else if f == "writeInt24" then showPyOut (Gen.NibSrc.enc_writeInt24 v)
+      else if f == "writeInt31" then showPyOut (Gen.NibSrc.enc_writeInt31 v) else if f == "writeListStart" then showPyOut (Gen.NibSrc.enc_writeListStart v)
+      else if f == "writeToken" then showPyOut (Gen.NibSrc.enc_writeToken v) else "bad-op"
+    | none => "bad-op"
   | [f, a] =>
     match a.toInt? with
     | some x =>
